@@ -11,6 +11,7 @@ import (
 	"encoding/json"
 	"fmt"
 	"strconv"
+	"strings"
 
 	"verif/internal/gen"
 	"verif/internal/lib"
@@ -92,9 +93,56 @@ func c04Run(c *mon.Ctx, unit int) {
 		}
 		// ---- converse: plant one violation
 		c04Plant(c, r, ec)
+		if k%8 == 7 {
+			c04OrAcrossTypes(c, r)
+		}
 		if k == 0 && unit < 6 {
 			c.Sample("accepted schema and its example", map[string]any{"spec": sp, "example": doc})
 		}
+	}
+}
+
+// c04OrAcrossTypes: or rule-sets in the root AND in added types (each text is loaded as a schema of
+// its own, their anonymous rule-set types end up in one table). The root's example violates
+// every rule-set of its own or rule, while rule-sets of the added types would admit it.
+func c04OrAcrossTypes(c *mon.Ctx, r *mon.Rng) {
+	max, maxLen := r.Range(1, 9), r.Range(1, 3)
+	bad := mon.Pick(r, []*model.Node{model.Int(strconv.Itoa(max + 1 + r.Intn(90))), model.Str(strings.Repeat("x", maxLen+1+r.Intn(3))), model.Bool(true)})
+	orRule := model.ROr(model.OrSet(model.RStr("type", "integer"), model.RNum("max", strconv.Itoa(max))), model.OrSet(model.RStr("type", "string"), model.RInt("maxLength", maxLen)))
+	if r.Bool() {
+		orRule.Or[0], orRule.Or[1] = orRule.Or[1], orRule.Or[0]
+	}
+	target := bad.With(orRule)
+	wide := func() *model.Rule {
+		return model.ROr(model.OrSet(model.RStr("type", "integer")), model.OrSet(model.RStr("type", "string")), model.OrSet(model.RStr("type", "boolean")))
+	}
+	s := &model.Schema{Types: []*model.TypeDef{
+		{Name: "@size", Root: model.Str("XL").With(wide())},
+		{Name: "@obj", Root: model.Obj(model.P("a", model.Int("1").With(wide())), model.P("b", model.Bool(false).With(wide())))},
+	}}
+	switch r.Intn(3) {
+	case 0:
+		s.Root = model.Obj(model.P("id", target), model.P("s", model.Ref("@size")))
+	case 1:
+		s.Root = model.Obj(model.P("o", model.Ref("@obj")), model.P("s", model.Ref("@size")), model.P("id", target))
+	default:
+		s.Root = model.Arr(model.Ref("@obj"), target)
+	}
+	if r.Bool() {
+		s.Types[0], s.Types[1] = s.Types[1], s.Types[0]
+	}
+	sp := specOf(s, model.Style{})
+	obs := lib.Check(sp)
+	want := target.Pos
+	c.Eval(1)
+	c.Count("converse: or rule-sets in the root and in added types, root example admitted by none of its own", 1)
+	switch {
+	case obs.Panic != "":
+		c.Violate("check-panic", c04Case{Spec: sp}, "no panic", obs.String(), "Check panicked")
+	case obs.OK:
+		c.Violate("converse", c04Case{Spec: sp, Pos: want}, "reject at "+strconv.Itoa(want), "accept", "Check accepts a schema whose example is admitted by no rule-set of its own or rule (added types carry or rule-sets that would admit it)")
+	case obs.Pos != want:
+		c.Violate("converse", c04Case{Spec: sp, Pos: want}, "reject at "+strconv.Itoa(want), fmt.Sprintf("reject at %d (code %d)", obs.Pos, obs.Code), "Check reports another position than the offending value (or rule-sets in root and added types)")
 	}
 }
 
